@@ -13,6 +13,7 @@ import (
 	"github.com/ipld/go-car/v2/blockstore"
 	"github.com/ipld/go-car/v2/storage"
 	"github.com/ipld/go-car/v2/storage/deferred"
+	mh "github.com/multiformats/go-multihash"
 )
 
 // writerKinds: every writer the property names. api token -> how the file is produced.
@@ -237,9 +238,21 @@ func readViaStorage(file []byte) string {
 	return fmt.Sprintf("open=ok roots=%s blocks=%s end=eof sound=%d", cidsStr(rc.Roots()), blocksStr(out), b2i(sound(out)))
 }
 
+// boundaryBlocks: sections whose length sits exactly on a varint width boundary (127/128 and
+// 16383/16384 bytes of CID + data), where framing code that sizes buffers from the length can slip.
+func boundaryBlocks(g *Gen) []Blk {
+	var out []Blk
+	for _, L := range []int{127, 128, 16383, 16384} {
+		d := g.bytes(L - 36)
+		h, _ := mh.Sum(d, mh.SHA2_256, -1)
+		out = append(out, Blk{cid.NewCidV1(cid.Raw, h), d})
+	}
+	return out
+}
+
 func famC01(g *Gen, o *Out, n int, thorough bool) {
 	seq := 0
-	for c := 0; c < n; c++ {
+	for c := -1; c < n; c++ {
 		maxB := 6
 		if thorough {
 			maxB = 12
@@ -254,12 +267,15 @@ func famC01(g *Gen, o *Out, n int, thorough bool) {
 			}
 			bs = append(bs[:j:j], append([]Blk{bs[i]}, bs[j:]...)...)
 		}
+		if c == -1 {
+			bs = boundaryBlocks(g)
+		}
 		o.HashBlocks(bs)
 		roots := g.Roots(bs)
 		wo := g.wOpts()
 		wo.mcs = 2048
 		for _, kind := range writerKinds {
-			if !thorough && g.pick(2) == 0 {
+			if !thorough && g.pick(2) == 0 && c >= 0 {
 				continue
 			}
 			seq++
